@@ -128,7 +128,7 @@ Lemma add_common_shape hc st l ty name sn org dflt kw ds cast st' out :
 Proof.
   unfold add_common. destruct (lf_at st l) as [f|]; [|intros H; inv H; auto].
   destruct (get_or_make_set st ty sn) as [st1 sid] eqn:Hg. intros H Hi.
-  assert (Hi2 : Inv_shape (set_lf st1 l (try_add_set f ty sn sid))) by (eapply inv_shape_same_items; [|exact Hi]; cbn; eapply gms_items; eassumption).
+  assert (Hi2 : Inv_shape (set_lf st1 l (try_add_set st1 f ty sn sid))) by (eapply inv_shape_same_items; [|exact Hi]; cbn; eapply gms_items; eassumption).
   destruct name; try (inv H; exact Hi2).
   destruct (hc && negb (hc_string s)); [inv H; exact Hi2|].
   match type of H with context [match ?o with OK _ => _ | Err _ => _ end] => destruct o end; [|inv H; exact Hi2].
@@ -155,7 +155,7 @@ Proof.
   - destruct (add_origin (p_hc ps) st l name sn origin kw) as [s1 o1] eqn:E. intros H Hi; injection H as <- <- <-.
     unfold add_origin in E. destruct (lf_at st l) as [f|]; [|inv E; exact Hi].
     destruct (get_or_make_set st T_ORIGIN sn) as [st1 sid] eqn:Hg.
-    assert (Hi1 : Inv_shape (set_lf st1 l (try_add_set f T_ORIGIN sn sid))) by (eapply inv_shape_same_items; [|exact Hi]; cbn; eapply gms_items; eassumption).
+    assert (Hi1 : Inv_shape (set_lf st1 l (try_add_set st1 f T_ORIGIN sn sid))) by (eapply inv_shape_same_items; [|exact Hi]; cbn; eapply gms_items; eassumption).
     match type of E with context [match ?c with Some _ => _ | None => _ end = _] => destruct c end; [inv E; exact Hi1|].
     match type of E with context [add_common ?a ?b ?c ?d ?e0 ?f0 ?g ?h ?i ?j ?k] =>
       destruct (add_common a b c d e0 f0 g h i j k) as [st3 out3] eqn:Ea end.
